@@ -101,6 +101,22 @@ CLAIMED = {
              "Liveness of the libevent loop and real-time bounds are exercised (sys_relay), not proved. Axioms: propext, Classical.choice, Quot.sound.",
         technique="Lean 4 invariant proofs over unbounded event/answer sequences + differential correspondence on the real xrelay.c + system runs of the real relay",
         ref="DESIGN.md §5 C20"),
+    "C08": dict(
+        text="Lean 4 proofs on a model of the lifecycle ladders of xcm.c (xcm_connect_a, xcm_server_a, xcm_accept_a with its blocking "
+             "restart and finish loops, xcm_close, xcm_cleanup): for EVERY script of failures (xpoll_create, transport init/connect/server/"
+             "accept/finish failing at any step with any errno, a failing attribute, any number of EAGAIN restarts) a call that returns NULL "
+             "leaves the ledger of socket structures, xpoll instances and transport states unchanged, a call that returns a socket holds "
+             "exactly one of each, close/cleanup release exactly one of each, nothing not held is ever released, and after any history "
+             "nothing is held once every socket is closed (C08_create_balanced, C08_accept_balanced, C08_close_balanced, "
+             "C08_histories_balanced). Tie: the real xcm.c over a scripted xpoll/transport with a ledger vs the compiled model. The "
+             "transports' own paths are covered by sys_life: every resource-creating system call of a full scenario on all seven "
+             "transports fails in turn (exhaustive over the call index), with descriptor ledger, stray-close detection, file and heap "
+             "checks, plus fork + xcm_cleanup and control-client scenarios.",
+        note="Proved: the core ladders relative to the transport contract of xcm_tp.h. The transports' internal ladders (btcp, btls, utls, "
+             "ux, tconnect, ctl, dns) are exercised exhaustively over single failures by sys_life on the real code, not proved; double "
+             "failures and malloc failure are outside (the library aborts on memory exhaustion by design). Axioms: propext, Classical.choice, Quot.sound.",
+        technique="Lean 4 proofs over all failure scripts of the xcm.c ladders + differential correspondence + exhaustive single-fault injection on the real library",
+        ref="DESIGN.md §5 C08"),
     "C07": dict(
         text="Lean 4 proofs on the framing model for an ARBITRARY arrived byte stream in arbitrary segmentation: the "
              "receive buffer never exceeds one maximum-size frame and no mbuf.h assertion can fire (C07_bounded_buffer), "
